@@ -316,9 +316,15 @@ def wcheck_monitor(out):
         w = o.split()
         if not w or w[0] != "wcheck" or len(w) < 5: continue
         d = kv(o); t, ww = int(d["try_write2"]), int(d["write2"])
-        exp = (-22, -22) if w[1] == "plain" else ((1, 0) if w[2] == "good" else (-9, -9))
-        if t != exp[0]: return ("try-write2-handle-" + w[1] + "-" + w[2], f"uv_try_write2 on {w[1]} pipe with {w[2]} handle returned {t}, expected {exp[0]}")
-        if ww != exp[1]: return ("write2-handle-" + w[1] + "-" + w[2], f"uv_write2 on {w[1]} pipe with {w[2]} handle returned {ww}, expected {exp[1]}")
+        # refused with UV_EINVAL on every carrier that is not an IPC named pipe; on an IPC pipe UV_EBADF without descriptor
+        exp = (-22, -22) if w[1] != "ipc" else ((1, 0) if w[2].startswith("good") else (-9, -9))
+        if t != exp[0]: return ("try-write2-handle-" + w[1] + "-" + w[2], f"uv_try_write2 on {w[1]} stream with {w[2]} handle returned {t}, expected {exp[0]}")
+        if ww != exp[1]: return ("write2-handle-" + w[1] + "-" + w[2], f"uv_write2 on {w[1]} stream with {w[2]} handle returned {ww}, expected {exp[1]}")
+    for o in out:
+        if o.startswith("wdeliver"):
+            d = kv(o)
+            if d["sent"] != d["got"] or d["sent"] != "6": return ("ipc-handles-not-delivered", f"handles accepted for sending over the IPC pipe vs descriptors that reached the peer: {o}")
+            if d["plain-got"] != "0" or d["tcp-got"] != "0": return ("handle-leaked-over-non-ipc", o)
     return None
 
 
@@ -406,8 +412,8 @@ def model_diff(ctx, prog, out):
     if wl:
         q = []
         for w in wl:
-            ipc = "1" if w[1] == "ipc" else "0"; h = "5" if w[2] == "good" else "-1"
-            q += [f"tw2 7 1 1 {ipc} 0 0 {h}", f"w2 7 1 1 {ipc} 0 0 {h}"]
+            ipc = "1" if w[1] == "ipc" else "0"; h = "5" if w[2].startswith("good") else "-1"; isp = "0" if w[1] == "tcp" else "1"
+            q += [f"tw2 7 1 {isp} {ipc} 0 0 {h}", f"w2 7 1 {isp} {ipc} 0 0 {h}"]
         mo = ctx.driver(["wcheck"], "\n".join(q) + "\n").splitlines()
         for j, w in enumerate(wl):
             d = kv(" ".join(w))
